@@ -282,28 +282,48 @@ static void fp_history(CaseOut &co, Rng &r, const Args &a, uint64_t i, long &ops
     size_t D = (size_t) r.range(1, 40); int pool = (int) r.range(2, 6); int nops = (int) r.range(1, (ll) a.geti("max_ops", 120));
     std::string cdesc; const std::vector<size_t> cmap = make_coordinate_map(r, D, cdesc);
     std::vector<parmcb::SpVecFP<P>> vs(pool, parmcb::SpVecFP<P>(P(p))); std::vector<std::vector<ll>> ds(pool, std::vector<ll>(D, 0));
+    // every vector carries its own prime: an assignment (copy, move, from a temporary) hands the source's prime to the target, so a
+    // pool that mixes primes (default-constructed vectors have prime 3; work vectors reused for another field) is part of "every
+    // sequence of operations"; arithmetic is only ever done between vectors of the same prime
+    std::vector<ll> pv(pool, p); bool mixed = r.chance(0.4); bool crossed = false;
+    auto foreign_prime = [&]() -> ll { ll q2 = p; for (int t = 0; t < 8 && q2 == p; t++) { q2 = primes_small[r.below(12)]; if (q2 > p) q2 = p; } return q2; };
+    if (mixed) for (int q = 0; q < pool; q++) if (r.chance(0.5)) { if (r.chance(0.4)) { vs[q] = parmcb::SpVecFP<P>(); pv[q] = 3; } else { ll q2 = foreign_prime(); vs[q] = parmcb::SpVecFP<P>(P(q2)); pv[q] = q2; } if (pv[q] > p) { vs[q] = parmcb::SpVecFP<P>(P(p)); pv[q] = p; } }
     std::vector<std::string> hist; bool bad = false;
     auto fail = [&](const std::string &kind, const std::string &msg) { std::string h; for (auto &x : hist) h += x + "; ";
         co.viol("spvecfp:" + kind, msg, J().str("P", tname<P>()).num("p", p).num("dimension", (ll) D).str("history", h).done(), "history seed=" + std::to_string(a.seed) + " case=" + std::to_string(i)); bad = true; };
-    auto mod = [&](__int128 v) { ll m = (ll) (v % p); if (m < 0) m += p; return m; };
+    auto modq = [&](__int128 v, ll q) { ll m = (ll) (v % q); if (m < 0) m += q; return m; };
     for (int op = 0; op < nops && !bad; op++) {
-        int x = (int) r.below(pool), y = (int) r.below(pool), z = (int) r.below(pool); int kind = (int) r.below(11); std::string why;
-        auto scalar = [&]() -> ll { int k = (int) r.below(6); if (k == 0) return 0; if (k == 1) return p <= amax ? p * r.range(-2, 2) : 0; if (k == 2) return -r.range(1, std::min<ll>(amax, 50)); if (k == 3) return r.range(1, std::min<ll>(amax, 50)); ll v = r.range(1, amax); return r.chance(0.5) ? -v : v; };
+        int x = (int) r.below(pool), y = (int) r.below(pool), z = (int) r.below(pool); int kind = (int) r.below(mixed ? 12 : 11); std::string why;
+        auto scalar = [&]() -> ll { int k = (int) r.below(6); if (k == 0) return 0; if (k == 1) return p <= amax ? pv[x] * r.range(-2, 2) : 0; if (k == 2) return -r.range(1, std::min<ll>(amax, 50)); if (k == 3) return r.range(1, std::min<ll>(amax, 50)); ll v = r.range(1, amax); return r.chance(0.5) ? -v : v; };
+        if ((kind == 2 || kind == 3 || kind == 4 || kind == 7) && pv[x] != pv[y]) kind = r.chance(0.5) ? 8 : 9;   // different fields: only assignment makes sense
+        const ll px = pv[x];
         switch (kind) {
-        case 0: case 1: { size_t q = r.below(D); hist.push_back("v" + std::to_string(x) + "=unit(" + std::to_string(q) + ")"); vs[x] = cmap[q]; ds[x].assign(D, 0); ds[x][q] = 1 % p; break; }
-        case 2: { hist.push_back("v" + std::to_string(z) + "=v" + std::to_string(x) + "+v" + std::to_string(y)); std::vector<ll> d(D); for (size_t q = 0; q < D; q++) d[q] = mod((__int128) ds[x][q] + ds[y][q]); parmcb::SpVecFP<P> t = vs[x] + vs[y]; vs[z] = t; ds[z] = d; break; }
-        case 3: case 4: { hist.push_back("v" + std::to_string(x) + "+=v" + std::to_string(y)); std::vector<ll> d(D); for (size_t q = 0; q < D; q++) d[q] = mod((__int128) ds[x][q] + ds[y][q]); vs[x] += vs[y]; ds[x] = d; break; }
-        case 5: { ll s = scalar(); hist.push_back("v" + std::to_string(z) + "=v" + std::to_string(x) + "*" + std::to_string(s)); std::vector<ll> d(D); for (size_t q = 0; q < D; q++) d[q] = mod((__int128) ds[x][q] * s); parmcb::SpVecFP<P> t = vs[x] * P(s); vs[z] = t; ds[z] = d; break; }
-        case 6: { ll s = scalar(); hist.push_back("v" + std::to_string(x) + "*=" + std::to_string(s)); for (size_t q = 0; q < D; q++) ds[x][q] = mod((__int128) ds[x][q] * s); vs[x] *= P(s); break; }
-        case 7: { hist.push_back("v" + std::to_string(x) + "*v" + std::to_string(y)); __int128 acc = 0; for (size_t q = 0; q < D; q++) acc = (acc + (__int128) ds[x][q] * ds[y][q]) % p; P got = vs[x] * vs[y];
-            if (got < 0 || got >= P(p) || got != P((ll) acc)) fail("dot", "dot product returned " + tstr(got) + ", arithmetic mod p gives " + std::to_string((ll) acc)); break; }
-        case 8: { hist.push_back("v" + std::to_string(x) + "=v" + std::to_string(y)); std::vector<ll> d = ds[y]; vs[x] = vs[y]; ds[x] = d; break; }
-        case 9: { hist.push_back("v" + std::to_string(x) + "=move(v" + std::to_string(y) + ")"); std::vector<ll> d = ds[y]; vs[x] = std::move(vs[y]); if (x != y) { vs[y].clear(); ds[y].assign(D, 0); } ds[x] = d; break; }
+        case 0: case 1: { size_t q = r.below(D); hist.push_back("v" + std::to_string(x) + "=unit(" + std::to_string(q) + ")"); vs[x] = cmap[q]; ds[x].assign(D, 0); ds[x][q] = 1 % px; break; }
+        case 2: { hist.push_back("v" + std::to_string(z) + "=v" + std::to_string(x) + "+v" + std::to_string(y)); std::vector<ll> d(D); for (size_t q = 0; q < D; q++) d[q] = modq((__int128) ds[x][q] + ds[y][q], px);
+            if (pv[z] != px) crossed = true;
+            if (r.chance(0.5)) { parmcb::SpVecFP<P> t = vs[x] + vs[y]; vs[z] = t; } else vs[z] = vs[x] + vs[y];      // copy assignment of a named sum / move assignment of the temporary
+            ds[z] = d; pv[z] = px; break; }
+        case 3: case 4: { hist.push_back("v" + std::to_string(x) + "+=v" + std::to_string(y)); std::vector<ll> d(D); for (size_t q = 0; q < D; q++) d[q] = modq((__int128) ds[x][q] + ds[y][q], px); vs[x] += vs[y]; ds[x] = d; break; }
+        case 5: { ll sc = scalar(); hist.push_back("v" + std::to_string(z) + "=v" + std::to_string(x) + "*" + std::to_string(sc)); std::vector<ll> d(D); for (size_t q = 0; q < D; q++) d[q] = modq((__int128) ds[x][q] * sc, px);
+            if (pv[z] != px) crossed = true;
+            if (r.chance(0.5)) { parmcb::SpVecFP<P> t = vs[x] * P(sc); vs[z] = t; } else vs[z] = vs[x] * P(sc);
+            ds[z] = d; pv[z] = px; break; }
+        case 6: { ll sc = scalar(); hist.push_back("v" + std::to_string(x) + "*=" + std::to_string(sc)); for (size_t q = 0; q < D; q++) ds[x][q] = modq((__int128) ds[x][q] * sc, px); vs[x] *= P(sc); break; }
+        case 7: { hist.push_back("v" + std::to_string(x) + "*v" + std::to_string(y)); __int128 acc = 0; for (size_t q = 0; q < D; q++) acc = (acc + (__int128) ds[x][q] * ds[y][q]) % px; P got = vs[x] * vs[y];
+            if (got < 0 || got >= P(px) || got != P((ll) acc)) fail("dot", "dot product returned " + tstr(got) + ", arithmetic mod " + std::to_string(px) + " gives " + std::to_string((ll) acc)); break; }
+        case 8: { hist.push_back("v" + std::to_string(x) + "=v" + std::to_string(y)); if (pv[x] != pv[y]) crossed = true; std::vector<ll> d = ds[y]; vs[x] = vs[y]; ds[x] = d; pv[x] = pv[y]; break; }
+        case 9: { hist.push_back("v" + std::to_string(x) + "=move(v" + std::to_string(y) + ")"); if (pv[x] != pv[y]) crossed = true; std::vector<ll> d = ds[y]; vs[x] = std::move(vs[y]); if (x != y) { vs[y].clear(); ds[y].assign(D, 0); } ds[x] = d; pv[x] = pv[y]; break; }
+        case 11: { ll q2 = r.chance(0.3) ? 3 : foreign_prime(); if (q2 > p) q2 = p; hist.push_back("v" + std::to_string(x) + "=SpVecFP(" + std::to_string(q2) + ")");
+            if (q2 == 3 && r.chance(0.5)) vs[x] = parmcb::SpVecFP<P>(); else vs[x] = parmcb::SpVecFP<P>(P(q2)); ds[x].assign(D, 0); pv[x] = q2; break; }
         default: { hist.push_back("v" + std::to_string(x) + ".clear()"); vs[x].clear(); ds[x].assign(D, 0); break; }
         }
         ops_total++;
-        for (int q = 0; q < pool && !bad; q++) if (!fp_same<P>(vs[q], ds[q], p, cmap, why)) fail("contents", "after '" + hist.back() + "': v" + std::to_string(q) + " " + why + " [coordinates: " + cdesc + "]");
+        for (int q = 0; q < pool && !bad; q++) {
+            if (!fp_same<P>(vs[q], ds[q], pv[q], cmap, why)) fail("contents", "after '" + hist.back() + "': v" + std::to_string(q) + " (over F_" + std::to_string(pv[q]) + ") " + why + " [coordinates: " + cdesc + "]");
+            else if (vs[q].prime() != P(pv[q])) fail("prime", "after '" + hist.back() + "': v" + std::to_string(q) + " reports prime " + tstr(vs[q].prime()) + ", the vector it was assigned from is over F_" + std::to_string(pv[q]));
+        }
     }
+    if (crossed) co.tag("assignment_across_primes");
     co.tag(std::string("P:") + tname<P>()); co.tag(p == 2 ? "p=2" : p < 100 ? "p<100" : "p>=100"); if (cdesc.find(" 0 gaps") == std::string::npos) co.tag("coordinate_gaps>=2^31");
     if ((int) (i - a.from) < a.samples) { std::string h; for (size_t q = 0; q < hist.size() && q < 10; q++) h += hist[q] + "; "; co.sample = J().str("P", tname<P>()).num("p", p).num("dimension", (ll) D).num("operations", nops).str("history_prefix", h).done(); }
     co.nontrivial = nops >= 5;
